@@ -1,17 +1,12 @@
 package main
 
 import (
-	"bufio"
 	"context"
-	"crypto/tls"
-	"encoding/base64"
-	"encoding/json"
 	"fmt"
 	"net"
 	"strings"
 	"sync/atomic"
 	"time"
-	"verifharness/memconn"
 
 	lime "github.com/takenet/lime-go"
 	"verifharness/coqfmt"
@@ -113,17 +108,26 @@ func init() {
 		var rp pipelinedCase
 		if ok, _ := env.ReplayDesc(&rp); ok && rp.Pipelined {
 			env.Header = hsHeader + "Corr.C09."
-			c := runPipelined()
-			env.Add(c.coq(), c)
+			for _, sc := range pipeScenarios {
+				if sc.name == rp.Name {
+					c := runPipelined(sc)
+					env.Add(c.coq(), c)
+				}
+			}
 			return nil
 		}
 		if env.Replay == "" {
 			defer func() {
-				for i := 0; i < 3; i++ {
-					c := runPipelined()
-					env.Add(c.coq(), c)
-					env.Count("pipelined-cleartext-before-tls")
-					env.NonTrivial(fmt.Sprintf("pipelined-%d", i))
+				for _, sc := range pipeScenarios {
+					for i := 0; i < env.Pick(2, 6); i++ {
+						c := runPipelined(sc)
+						env.Add(c.coq(), c)
+						env.Count("pipelined:" + sc.name)
+						if len(c.Clear) > 0 {
+							env.Count("pipelined-cleartext-before-a-completed-upgrade")
+						}
+						env.NonTrivial("pipelined-" + sc.name)
+					}
 				}
 			}()
 		}
@@ -180,7 +184,14 @@ var abruptFirsts = []string{"finishing", "established", "negotiating", "authenti
 	"finishing:noid", "established:noid", "negotiating:noid", "authenticating:noid", "failed:noid", "finished:noid", "new:noid"}
 
 func (c *abruptCase) coq() string {
-	return coqfmt.App("KAbrupt", coqfmt.Nat(c.Est), coqfmt.Nat(c.Fin), coqfmt.Bool(c.Ended))
+	kind := map[string]string{"inproc": "TInproc", "tcp": "(TTcp false)", "ws": "(TWs false)"}[c.Kind]
+	id, state := "x1", c.Abrupt
+	if strings.HasSuffix(state, ":noid") {
+		id, state = "", strings.TrimSuffix(state, ":noid")
+	}
+	first := coqfmt.Record("cs_id", coqfmt.Str(id), "cs_state", coqState(state), "cs_enc", coqfmt.Str(""), "cs_comp", coqfmt.Str(""),
+		"cs_scheme", coqfmt.Str(""), "cs_cred", coqfmt.None, "cs_from", coqfmt.Nat(0))
+	return coqfmt.App("KAbrupt", kind, first, coqfmt.Nat(c.Est), coqfmt.Nat(c.Fin), coqfmt.Bool(c.Ended))
 }
 
 // runAbrupt serves one connection whose peer sends a single session envelope in the given state and closes
@@ -270,97 +281,100 @@ func runAbrupt(kind, first string) *abruptCase {
 	return c
 }
 
+// pipelinedCase: a scripted case some of whose items are glued to the item before (written in the same segment).
 type pipelinedCase struct {
-	Pipelined bool   `json:"pipelined"`
-	Clear     int    `json:"cleartext_identity"`
-	Auths     []int  `json:"authenticated"`
-	Est       int    `json:"established_for"` // 0 = no session established
-	Note      string `json:"note,omitempty"`
+	Pipelined bool    `json:"pipelined"`
+	Name      string  `json:"scenario"`
+	Case      *SCase  `json:"scase"`
+	Clear     []int   `json:"cleartext_identities"` // identities whose credentials went out only in clear before an upgrade that was completed
 }
 
 func (c *pipelinedCase) coq() string {
-	est := coqfmt.None
-	if c.Est != 0 {
-		est = coqfmt.Some(coqfmt.Nat(c.Est))
+	glued := make([]string, len(c.Case.Script))
+	for i, x := range c.Case.Script {
+		glued[i] = coqfmt.Bool(x.Glued)
 	}
-	return coqfmt.App("KPipelined", coqfmt.Nat(c.Clear), coqfmt.Nats(c.Auths), est)
+	return coqfmt.App("KPipelined", c.Case.Coq(), coqfmt.List(glued), coqfmt.Nats(c.Clear))
 }
 
-// runPipelined: a TLS-only server; the peer writes its selection of TLS and, in the same write (so in clear),
-// an authenticating envelope for identity 2; it then completes the TLS handshake and authenticates as
-// identity 1 under TLS.
-func runPipelined() *pipelinedCase {
-	c := &pipelinedCase{Pipelined: true, Clear: 2}
-	conf := confsByName("tls-only")[0]
-	oracle := &SOracle{Name: "everyone-is-a-member", Auth: []AuthRow{{1, "plain", ip(1), 0, "role"}, {2, "plain", ip(2), 0, "role"}}, Reg: []RegRow{}}
-	srv := newScriptServer(conf, oracle)
+type pipeScenario struct {
+	name   string
+	conf   string
+	script []CIn
+}
+
+func glue(in CIn) CIn { in.Glued = true; return in }
+func sesFrom(id, state, enc, comp, scheme string, cred *int, from int) CIn {
+	c := ses(id, state, enc, comp, scheme, cred)
+	c.Ses.From = from
+	return c
+}
+
+// everyone-is-a-member: both identities authenticate with their own password
+var pipeOracle = &SOracle{Name: "everyone-is-a-member", Auth: []AuthRow{{1, "plain", ip(1), 0, "role"}, {2, "plain", ip(2), 0, "role"}, {2, "plain", ip(2), 1, "role"}}, Reg: []RegRow{}}
+
+var pipeScenarios = []pipeScenario{
+	// the selection of TLS and, behind it in clear, credentials of identity 2; then identity 1 under TLS
+	{"clear-credentials-behind-tls-selection", "tls-only", []CIn{ses("", "new", "", "", "", nil), ses("SID", "negotiating", "tls", "none", "", nil),
+		glue(sesFrom("SID", "authenticating", "", "", "plain", ip(2), 2)), sesFrom("SID", "authenticating", "", "", "plain", ip(1), 1)}},
+	// two envelopes behind the selection
+	{"two-envelopes-behind-tls-selection", "tls-only", []CIn{ses("", "new", "", "", "", nil), ses("SID", "negotiating", "tls", "none", "", nil),
+		glue(sesFrom("SID", "authenticating", "", "", "plain", ip(2), 2)), glue(sesFrom("SID", "authenticating", "", "", "plain", ip(2), 2)),
+		sesFrom("SID", "authenticating", "", "", "plain", ip(1), 1)}},
+	// the same identity again under TLS: then it is legitimately authenticated
+	{"same-identity-again-under-tls", "none-or-tls", []CIn{ses("", "new", "", "", "", nil), ses("SID", "negotiating", "tls", "none", "", nil),
+		glue(sesFrom("SID", "authenticating", "", "", "plain", ip(2), 2)), sesFrom("SID", "authenticating", "", "", "plain", ip(2), 2)}},
+	// "none" is negotiated: nothing is switched, the glued credentials are served from the buffer
+	{"credentials-behind-none-selection", "none-or-tls", []CIn{ses("", "new", "", "", "", nil), ses("SID", "negotiating", "none", "none", "", nil),
+		glue(sesFrom("SID", "authenticating", "", "", "plain", ip(2), 2))}},
+	// the peer does not complete the TLS handshake
+	{"tls-handshake-fails", "tls-handshake-fails", []CIn{ses("", "new", "", "", "", nil), ses("SID", "negotiating", "tls", "none", "", nil),
+		glue(sesFrom("SID", "authenticating", "", "", "plain", ip(2), 2))}},
+	// a selection that was not offered, credentials behind it
+	{"credentials-behind-refused-selection", "tls-only", []CIn{ses("", "new", "", "", "", nil), ses("SID", "negotiating", "none", "none", "", nil),
+		glue(sesFrom("SID", "authenticating", "", "", "plain", ip(2), 2))}},
+	// no negotiation stage: credentials glued to the very first envelope cannot know the session id
+	{"credentials-behind-new", "plain-only", []CIn{ses("", "new", "", "", "", nil), glue(sesFrom("", "authenticating", "", "", "plain", ip(2), 2))}},
+	// a data envelope behind the credentials: served from the buffer once the session is established
+	{"data-behind-credentials", "plain-only", []CIn{ses("", "new", "", "", "", nil), sesFrom("SID", "authenticating", "", "", "plain", ip(1), 1), glue(CIn{Kind: "data"})}},
+	// TLS selection, then under TLS credentials with a data envelope glued behind them
+	{"data-behind-credentials-under-tls", "tls-first", []CIn{ses("", "new", "", "", "", nil), ses("SID", "negotiating", "tls", "none", "", nil),
+		sesFrom("SID", "authenticating", "", "", "plain", ip(1), 1), glue(CIn{Kind: "data"})}},
+}
+
+// runPipelined plays one scenario against a real Server over an injected in-memory TCP connection.
+func runPipelined(sc pipeScenario) *pipelinedCase {
+	conf := confsByName(sc.conf)[0]
+	srv := newScriptServer(conf, pipeOracle)
 	defer srv.Close()
-	cmem, smem := memconn.Pipe(0)
-	defer cmem.Close()
-	defer smem.Close()
-	sc, cc := testTLS()
-	st := lime.NewTCPTransportOverConn(smem, true, &lime.TCPConfig{TLSConfig: sc})
-	srv.mu.Lock()
-	srv.calls = nil
-	srv.round = map[string]int{}
-	srv.cur = st
-	srv.mu.Unlock()
-	srv.l.ch <- st
-	_ = cmem.SetDeadline(time.Now().Add(5 * time.Second))
-	r := bufio.NewReader(cmem)
-	readSes := func(rd *bufio.Reader) map[string]interface{} {
-		line, err := rd.ReadBytes('\n')
-		if err != nil {
-			return nil
+	obs := srv.run(sc.script)
+	c := &pipelinedCase{Pipelined: true, Name: sc.name, Case: &SCase{Conf: conf, Oracle: pipeOracle, Script: sc.script, Obs: obs}, Clear: []int{}}
+	// identities whose credentials were written, glued, before the client completed an upgrade and that were not
+	// presented again afterwards: the wire log says under which encryption each later envelope was read
+	upgradedAt := -1
+	n := 0
+	for _, w := range obs.Wire {
+		if w.Took {
+			n++
+			continue
 		}
-		var m map[string]interface{}
-		_ = json.Unmarshal(line, &m)
-		return m
+		if w.Ses != nil && w.Ses.ReadUnder == "tls" && upgradedAt < 0 {
+			upgradedAt = n // items written so far (indices < n) precede the first envelope read under TLS
+		}
 	}
-	_, _ = cmem.Write([]byte(`{"state":"new"}` + "\n"))
-	offer := readSes(r)
-	if offer == nil {
-		c.Note = "no offer"
-		return c
-	}
-	sid, _ := offer["id"].(string)
-	auth := func(n int) string {
-		return fmt.Sprintf(`{"state":"authenticating","id":"%s","from":"%s","scheme":"plain","authentication":{"password":"%s"}}`,
-			sid, clientNode(n), base64.StdEncoding.EncodeToString([]byte(fmt.Sprintf("c%d", n))))
-	}
-	// one segment: the selection, and behind it the credentials of identity 2, in clear
-	_, _ = cmem.Write([]byte(fmt.Sprintf(`{"state":"negotiating","id":"%s","encryption":"tls","compression":"none"}`, sid) + "\n" + auth(2) + "\n"))
-	if conf := readSes(r); conf == nil {
-		c.Note = "no confirmation"
-		return c
-	}
-	buffered, _ := r.Peek(r.Buffered())
-	tc := tls.Client(&prefixConn{Conn: cmem, pre: append([]byte(nil), buffered...)}, cc)
-	if err := tc.Handshake(); err != nil {
-		c.Note = "tls handshake: " + err.Error()
-	} else {
-		tr := bufio.NewReader(tc)
-		if m := readSes(tr); m != nil && m["state"] == "authenticating" {
-			_, _ = tc.Write([]byte(auth(1) + "\n"))
-			if e := readSes(tr); e != nil && e["state"] == "established" {
-				if to, ok := e["to"].(string); ok && len(to) > 1 {
-					// the registered node is r<100+from>
-					n := tokenOfName(strings.SplitN(to, "@", 2)[0])
-					if n >= 100 {
-						n -= 100
-					}
-					c.Est = n
-				}
+	if upgradedAt >= 0 {
+		again := map[int]bool{}
+		for i := upgradedAt; i < len(sc.script); i++ {
+			if sc.script[i].Kind == "ses" && sc.script[i].Ses.Cred != nil {
+				again[sc.script[i].Ses.From] = true
+			}
+		}
+		for i := 0; i < upgradedAt && i < len(sc.script); i++ {
+			it := sc.script[i]
+			if it.Glued && it.Kind == "ses" && it.Ses.Cred != nil && !again[it.Ses.From] {
+				c.Clear = append(c.Clear, it.Ses.From)
 			}
 		}
 	}
-	time.Sleep(2 * time.Millisecond)
-	srv.mu.Lock()
-	for _, call := range srv.calls {
-		if call.Kind == "auth" {
-			c.Auths = append(c.Auths, call.From)
-		}
-	}
-	srv.mu.Unlock()
 	return c
 }
